@@ -1,7 +1,104 @@
-(* Properties_C19.v — property C19: objects carry their true type and allocation class;
-   non-heap objects are never freed.  Only statements closed by `exact`. *)
+(* Properties_C19.v — property C19: every object the API hands out carries its true type and
+   allocation class; stack, static and container-embedded objects are never freed or reallocated
+   (attempts raise ResourceError or ValueError and change nothing); heap objects deleted once are
+   released exactly once.  Statements about the model of Header.v, closed by `exact`. *)
 From CelloV Require Import Generated Header HeaderProofs.
 
+(* the rules of the C text the model's shape relies on are still the ones the generator recognises *)
 Theorem c19_rules_ok : hdr_rules_ok = true.
 Proof. exact HeaderProofs.rules_ok. Qed.
 Print Assumptions c19_rules_ok.
+
+(* every producer (new, new_raw, new_root, alloc*, copy, $, static and run-time types, element / key /
+   value of every container, iterator and view items, range and zip items, Tuple members), every type:
+   type_of gives the declared type, the header's class word is the stated class, the magic number is set *)
+Theorem c19_true_type_and_class :
+  forall ngc p T K V, valid p T K V = true ->
+    let o := m_produce (cfg_src ngc) p T K V in
+    m_type_of o = spec_type p T K V /\
+    aclass_of_code (o_alloc o) = Some (spec_class p) /\
+    o_magic o = true.
+Proof. exact HeaderProofs.produce_header. Qed.
+Print Assumptions c19_true_type_and_class.
+
+Example c19_true_type_nonvacuous :
+  valid (PGet CTableV) TInt TString TFloat = true /\
+  m_type_of (m_produce (cfg_src false) (PGet CTableV) TInt TString TFloat) = TFloat /\
+  spec_class (PGet CTableV) = AData.
+Proof. repeat split. Qed.
+
+(* the collector's registry only ever receives heap objects *)
+Theorem c19_registered_is_heap :
+  forall ngc p T K V, valid p T K V = true ->
+    o_reg (m_produce (cfg_src ngc) p T K V) <> RNone -> spec_class p = AHeap.
+Proof. exact HeaderProofs.registered_is_heap. Qed.
+Print Assumptions c19_registered_is_heap.
+
+(* EVERY history of operations (del, del_raw, del_root, dealloc*, destruct, every reallocating member of
+   String and Tuple, collector sweeps) on EVERY non-heap object: each step releases nothing, and each
+   attempt raises ResourceError/ValueError leaving the object unchanged — except that del/del_root are only
+   shown not to release when the collector is compiled in (finding F7, see c19_f7_refuted) *)
+Theorem c19_nonheap_histories :
+  forall ngc p T K V ops, valid p T K V = true -> spec_class p <> AHeap ->
+    history_meets (cfg_src ngc) p T K V ops (m_produce (cfg_src ngc) p T K V).
+Proof. exact HeaderProofs.nonheap_histories. Qed.
+Print Assumptions c19_nonheap_histories.
+
+Example c19_nonheap_histories_nonvacuous :
+  valid PStack TString TInt TInt = true /\ spec_class PStack <> AHeap /\
+  spec_demand PStack TString TInt TInt OpResize = DAttempt true /\
+  m_op (cfg_src false) OpResize (m_produce (cfg_src false) PStack TString TInt TInt)
+    = (m_produce (cfg_src false) PStack TString TInt TInt, ORaise ValueError, nil).
+Proof. repeat split. discriminate. Qed.
+
+(* nothing is weakened without the collector ... *)
+Theorem c19_full_demand_without_collector : forall q d, weaken (cfg_src true) q d = d.
+Proof. exact HeaderProofs.weaken_ngc. Qed.
+Print Assumptions c19_full_demand_without_collector.
+
+(* ... and with it only for del and del_root *)
+Theorem c19_full_demand_except_del :
+  forall q d, q <> OpDel -> q <> OpDelRoot -> weaken (cfg_src false) q d = d.
+Proof. exact HeaderProofs.weaken_gc. Qed.
+Print Assumptions c19_full_demand_except_del.
+
+(* plain reading of the safety half: over any history no event passes the block of a non-heap object, or
+   the non-heap buffer of a stack String/Tuple, to free or realloc *)
+Theorem c19_nonheap_never_released :
+  forall ngc p T K V ops, valid p T K V = true -> spec_class p <> AHeap ->
+    forall e, List.In e (events (m_run (cfg_src ngc) ops (m_produce (cfg_src ngc) p T K V))) ->
+      is_obj_ev e = false /\ (spec_bufnh p T K V = true -> is_buf_ev e = false).
+Proof. exact HeaderProofs.nonheap_never_released. Qed.
+Print Assumptions c19_nonheap_never_released.
+
+(* finding F7 (open): with the collector compiled in, del of a non-heap object raises nothing *)
+Theorem c19_f7_refuted :
+  exists p T K V q, valid p T K V = true /\ spec_class p <> AHeap /\
+    let o := m_produce (cfg_src false) p T K V in
+    ~ meets o (m_op (cfg_src false) q o) (spec_demand p T K V q).
+Proof. exact HeaderProofs.f7_refuted. Qed.
+Print Assumptions c19_f7_refuted.
+
+(* defect D22 (repaired): with the pre-repair order in del_by the demand fails for del_raw of an embedded String *)
+Theorem c19_d22_refuted :
+  exists p T K V q, valid p T K V = true /\ spec_class p <> AHeap /\
+    let o := m_produce (cfg_d22 false) p T K V in
+    ~ meets o (m_op (cfg_d22 false) q o) (spec_demand p T K V q).
+Proof. exact HeaderProofs.d22_refuted. Qed.
+Print Assumptions c19_d22_refuted.
+
+(* heap objects: a matched deletion (new/del, new_root/del_root, new_raw/del_raw, alloc_raw/dealloc_raw,
+   run-time type/del_raw, or reclamation by a sweep) followed by ANY number of further sweeps passes the
+   block to free exactly once; roots and raw objects are never released by sweeps *)
+Theorem c19_heap_released_exactly_once :
+  forall ngc p T K V ops n, valid p T K V = true ->
+    matched_total (cfg_src ngc) p ops = Some n ->
+    frees (m_run (cfg_src ngc) ops (m_produce (cfg_src ngc) p T K V)) = n.
+Proof. exact HeaderProofs.heap_released_exactly_once. Qed.
+Print Assumptions c19_heap_released_exactly_once.
+
+Example c19_heap_once_nonvacuous :
+  matched_total (cfg_src false) PNew (OpDel :: OpSweep :: OpSweep :: nil) = Some 1 /\
+  matched_total (cfg_src false) PNewRoot (OpSweep :: nil) = Some 0 /\
+  frees (m_run (cfg_src false) (OpDel :: OpSweep :: OpSweep :: nil) (m_produce (cfg_src false) PNew TString TInt TInt)) = 1.
+Proof. repeat split. Qed.
